@@ -2,6 +2,8 @@ package main
 
 import (
 	"flag"
+	"runtime/pprof"
+	"strconv"
 	"fmt"
 	"os"
 	"strings"
@@ -38,7 +40,20 @@ func devRun(args []string) {
 	race := fs.Bool("race", false, "race mode")
 	maxPaths := fs.Int("maxpaths", 100000, "path limit")
 	inits := fs.String("init", "", "extra init packages (comma separated)")
+	solver := fs.String("solver", "z3", "z3|z3-new|cvc5")
+	prof := fs.String("cpuprofile", "", "write cpu profile")
+	params := fs.String("params", "", "harness parameters k=v,k=v")
 	fs.Parse(args)
+	if *prof != "" {
+		f, _ := os.Create(*prof)
+		pprof.StartCPUProfile(f)
+		go func() {
+			time.Sleep(25 * time.Second)
+			pprof.StopCPUProfile()
+			f.Close()
+			os.Exit(3)
+		}()
+	}
 	t0 := time.Now()
 	cfg := sym.LoadConfig{RepoDir: "/repo/" + *pkg, HarnessDir: "/verif/harness/" + *pkg, Tags: []string{"verif"}, InitPkgs: defaultInits(*pkg)}
 	if *inits != "" {
@@ -61,6 +76,15 @@ func devRun(args []string) {
 		opt.SchedBudget = *sched
 		opt.RaceMode = *race
 		opt.MaxPaths = *maxPaths
+		opt.SolverName = *solver
+		if *params != "" {
+			opt.Params = map[string]int{}
+			for _, kv := range strings.Split(*params, ",") {
+				p := strings.SplitN(kv, "=", 2)
+				v, _ := strconv.Atoi(p[1])
+				opt.Params[p[0]] = v
+			}
+		}
 		if *trace {
 			opt.Trace = os.Stderr
 			opt.Workers = 1
